@@ -2,7 +2,7 @@ import PycModel.Parser.Stmt
 /-!
 # A token-level view of the parser state, with the specifications of `peek` and `advance`
 
-`SeesT s toks`: the tokens the parser will obtain from state `s`, in order, are `toks` (class and
+`SeesT ty s toks`: the tokens the parser will obtain from state `s`, in order, are `toks` (class and
 spelling) - first the buffered ones (`_TokenStream._buffer[_index:]`), then those still to be lexed.
 The scope stack must describe a *static* typedef environment (`Stable`): no name is declared both
 as a type and as an object, and every type name lives in the outermost scope.  Then an identifier
@@ -84,27 +84,16 @@ theorem Agrees.lex {ty : String → Bool} {scopes : List Scope} (h : Agrees ty s
       · exact h
     · exact h
 
-/-- the static environment of a state: what its scope stack says now -/
-abbrev tyOf (s : PState) : String → Bool := isTypeInScopes s.scopes
-
-/-- `Stable scopes`: the stack agrees with its own lookup function -/
-abbrev Stable (scopes : List Scope) : Prop := Agrees (isTypeInScopes scopes) scopes
-
-theorem Stable.lex {scopes : List Scope} (h : Stable scopes) (k : String) :
-    isTypeInScopes (lexScopes k scopes) = isTypeInScopes scopes ∧ Stable (lexScopes k scopes) := by
-  have h1 := (Agrees.lex h k).funext
-  exact ⟨h1, by unfold Stable; rw [h1]; exact Agrees.lex h k⟩
-
 /-- `e`: the end-of-input marker (`None`) has already been lexed into the buffer.
 `rt` are the tokens still to be lexed, as the scanner delivers them (every identifier `ID`);
 `toks` shows them with the class the lexer callback will give them (`TYPEID` for type names). -/
-structure SeesT (s : PState) (toks : List Tk) : Prop where
+structure SeesT (ty : String → Bool) (s : PState) (toks : List Tk) : Prop where
   buffered : ∃ (bt : List PTok) (rt : List Tk) (e : Bool),
     s.buf.toList.drop s.idx = bt.map some ++ (if e then [none] else []) ∧
     s.raw = rt.map (fun t => SEv.tok t.1 t.2) ++ [.eof] ∧
-    toks = bt.map (fun t => (t.kind, t.val)) ++ rt.map (clsF (isTypeInScopes s.scopes)) ∧
+    toks = bt.map (fun t => (t.kind, t.val)) ++ rt.map (clsF ty) ∧
     (e = true → rt = []) ∧
-    Stable s.scopes ∧
+    Agrees ty s.scopes ∧
     (e = false → s.pulled = s.buf.size)
   idx_le : s.idx ≤ s.buf.size
   /-- a token's `idx` is its position in the buffer (= in the stripped event stream) -/
@@ -114,10 +103,12 @@ theorem bind_apply {α β} (m : P α) (f : α → P β) (s : PState) :
     (m >>= f) s = match m s with | .ok a s' => f a s' | .err e => .err e := rfl
 
 /-- lexing one token: identifiers are classified by the scope stack as it is now -/
-theorem lexToken_tok (s : PState) (k v : String) (r : List SEv) (hr : s.raw = .tok k v :: r) :
-    lexToken s = .ok (some ⟨(clsF (isTypeInScopes s.scopes) (k, v)).1, v, s.pulled⟩)
+theorem lexToken_tok {ty : String → Bool} (s : PState) (k v : String) (r : List SEv) (hr : s.raw = .tok k v :: r)
+    (hty : isTypeInScopes s.scopes = ty) :
+    lexToken s = .ok (some ⟨(clsF ty (k, v)).1, v, s.pulled⟩)
       { s with raw := r, pulled := s.pulled + 1, fileRef := s.pulled + 1, lexCalls := s.lexCalls + 1,
                scopes := lexScopes k s.scopes } := by
+  subst hty
   unfold lexToken
   rw [hr]
   simp only [clsF]
@@ -131,16 +122,11 @@ theorem lexToken_tok (s : PState) (k v : String) (r : List SEv) (hr : s.raw = .t
       | cons a t => cases t <;> simp [hs]
     · simp [h1, h2]
 
-theorem SeesT.stable {s : PState} {toks : List Tk} (h : SeesT s toks) : Stable s.scopes := by
+variable {ty : String → Bool}
+
+theorem SeesT.agrees {s : PState} {toks : List Tk} (h : SeesT ty s toks) : Agrees ty s.scopes := by
   obtain ⟨⟨_, _, _, _, _, _, _, hn, _⟩, _, _⟩ := h
   exact hn
-
-/-- the static typedef environment is the same in both states -/
-def TyEq (s s' : PState) : Prop := isTypeInScopes s'.scopes = isTypeInScopes s.scopes
-
-theorem TyEq.refl (s : PState) : TyEq s s := rfl
-theorem TyEq.trans {a b c : PState} (h1 : TyEq a b) (h2 : TyEq b c) : TyEq a c := by
-  unfold TyEq at *; rw [h2, h1]
 
 theorem getElem?_of_drop_cons {α} {l : List α} {i : Nat} {x : α} {xs : List α}
     (h : l.drop i = x :: xs) : l[i]? = some x := by
@@ -188,8 +174,8 @@ theorem pos_push_none {buf : Array (Option PTok)}
 
 /-- `peek` on a state that sees at least one token: returns it (its index is the read position),
 consumes nothing -/
-theorem peek_spec (s : PState) (k v : String) (toks : List Tk) (h : SeesT s ((k, v) :: toks)) :
-    ∃ s', peek s = .ok (some ⟨k, v, s.idx⟩) s' ∧ SeesT s' ((k, v) :: toks) ∧ TyEq s s' ∧ s'.idx = s.idx ∧
+theorem peek_spec (s : PState) (k v : String) (toks : List Tk) (h : SeesT ty s ((k, v) :: toks)) :
+    ∃ s', peek s = .ok (some ⟨k, v, s.idx⟩) s' ∧ SeesT ty s' ((k, v) :: toks) ∧ isTypeInScopes s'.scopes = ty ∧ s'.idx = s.idx ∧
       BufExt s s' ∧ s.buf.size ≤ s'.buf.size := by
   obtain ⟨⟨bt, rt, e, hbuf, hraw, htoks, he, hneu, hpul⟩, hle, hpos⟩ := h
   cases bt with
@@ -203,7 +189,7 @@ theorem peek_spec (s : PState) (k v : String) (toks : List Tk) (h : SeesT s ((k,
       have := (Array.getElem?_eq_some_iff.mp hget).1
       omega
     have hti := hpos _ _ hget
-    refine ⟨{ s with ticks := s.ticks + 1 }, ?_, ⟨⟨t :: bt', rt, e, hbuf, hraw, ?_, he, hneu, hpul⟩, hle, hpos⟩, rfl, rfl, fun j _ => rfl, Nat.le_refl _⟩
+    refine ⟨{ s with ticks := s.ticks + 1 }, ?_, ⟨⟨t :: bt', rt, e, hbuf, hraw, ?_, he, hneu, hpul⟩, hle, hpos⟩, hneu.funext, rfl, fun j _ => rfl, Nat.le_refl _⟩
     · simp only [peek, peekK, fill]
       simp [hlt, hget]
       cases t; simp_all
@@ -217,7 +203,7 @@ theorem peek_spec (s : PState) (k v : String) (toks : List Tk) (h : SeesT s ((k,
     simp only [List.map_cons, List.cons.injEq] at htoks
     obtain ⟨hkv, htl⟩ := htoks
     have hv : v = v0 := congrArg Prod.snd hkv
-    have hk : k = (clsF (isTypeInScopes s.scopes) (k0, v0)).1 := congrArg Prod.fst hkv
+    have hk : k = (clsF ty (k0, v0)).1 := congrArg Prod.fst hkv
     subst hv
     subst hk
     have he' : e = false := by cases e with | false => rfl | true => simp at he
@@ -227,13 +213,13 @@ theorem peek_spec (s : PState) (k v : String) (toks : List Tk) (h : SeesT s ((k,
     have hp := hpul rfl
     simp only [List.map_cons, List.cons_append] at hraw
     let s0 : PState := { s with ticks := s.ticks + 1 }
-    have hlex := lexToken_tok s0 k0 v _ hraw
-    obtain ⟨hty, hst⟩ := hneu.lex k0
-    let tok : PTok := ⟨(clsF (isTypeInScopes s.scopes) (k0, v)).1, v, s.pulled⟩
+    have hlex := lexToken_tok s0 k0 v _ hraw (show isTypeInScopes s0.scopes = ty from hneu.funext)
+    have hst := hneu.lex k0
+    let tok : PTok := ⟨(clsF ty (k0, v)).1, v, s.pulled⟩
     refine ⟨{ s0 with raw := rt'.map (fun t => SEv.tok t.1 t.2) ++ [.eof], pulled := s.pulled + 1,
                        fileRef := s.pulled + 1, lexCalls := s.lexCalls + 1,
                        buf := s.buf.push (some tok), scopes := lexScopes k0 s.scopes }, ?_,
-            ⟨⟨[tok], rt', false, ?_, rfl, ?_, by simp, hst, ?_⟩, ?_, ?_⟩, hty, rfl, bufExt_push s _ _ rfl, by simp⟩
+            ⟨⟨[tok], rt', false, ?_, rfl, ?_, by simp, hst, ?_⟩, ?_, ?_⟩, hst.funext, rfl, bufExt_push s _ _ rfl, by simp⟩
     · have hlt : s0.buf.size < s0.idx + 1 := by show s.buf.size < s.idx + 1; omega
       have hfill : fill 1 1 { s with ticks := s.ticks + 1 } = .ok ()
           { s0 with raw := rt'.map (fun t => SEv.tok t.1 t.2) ++ [.eof], pulled := s.pulled + 1,
@@ -249,16 +235,16 @@ theorem peek_spec (s : PState) (k v : String) (toks : List Tk) (h : SeesT s ((k,
       simp [hsz, tok, s0, hp]
     · show (s.buf.push (some tok)).toList.drop s.idx = _
       simp [hsz]
-    · show _ :: toks = [tok].map (fun t => (t.kind, t.val)) ++ rt'.map (clsF (isTypeInScopes (lexScopes k0 s.scopes)))
-      rw [hty, htl]; rfl
+    · show _ :: toks = [tok].map (fun t => (t.kind, t.val)) ++ rt'.map (clsF ty)
+      rw [htl]; rfl
     · intro _; show s.pulled + 1 = (s.buf.push (some tok)).size; simp; omega
     · show s.idx ≤ (s.buf.push (some tok)).size
       simp; omega
     · exact pos_push_some hpos (by show s.pulled = s.buf.size; exact hp)
 
 /-- `advance` on a state that sees at least one token: returns it and moves past it -/
-theorem advance_spec (s : PState) (k v : String) (toks : List Tk) (h : SeesT s ((k, v) :: toks)) :
-    ∃ s', advance s = .ok ⟨k, v, s.idx⟩ s' ∧ SeesT s' toks ∧ TyEq s s' ∧ s'.idx = s.idx + 1 ∧
+theorem advance_spec (s : PState) (k v : String) (toks : List Tk) (h : SeesT ty s ((k, v) :: toks)) :
+    ∃ s', advance s = .ok ⟨k, v, s.idx⟩ s' ∧ SeesT ty s' toks ∧ isTypeInScopes s'.scopes = ty ∧ s'.idx = s.idx + 1 ∧
       BufExt s s' ∧ s.buf.size ≤ s'.buf.size ∧ s'.buf[s.idx]? = some (some ⟨k, v, s.idx⟩) := by
   obtain ⟨⟨bt, rt, e, hbuf, hraw, htoks, he, hneu, hpul⟩, hle, hpos⟩ := h
   cases bt with
@@ -272,7 +258,7 @@ theorem advance_spec (s : PState) (k v : String) (toks : List Tk) (h : SeesT s (
     have hlt : ¬ s.buf.size < s.idx + 1 := by omega
     have hti := hpos _ _ hget
     refine ⟨{ s with ticks := s.ticks + 1, idx := s.idx + 1 }, ?_,
-      ⟨⟨bt', rt, e, ?_, hraw, htl, he, hneu, hpul⟩, ?_, hpos⟩, rfl, rfl, fun j _ => rfl, Nat.le_refl _, ?_⟩
+      ⟨⟨bt', rt, e, ?_, hraw, htl, he, hneu, hpul⟩, ?_, hpos⟩, hneu.funext, rfl, fun j _ => rfl, Nat.le_refl _, ?_⟩
     · simp only [advance, nextTok, fill, bind_apply]
       simp [hlt, hget]
       cases t; simp_all
@@ -293,7 +279,7 @@ theorem advance_spec (s : PState) (k v : String) (toks : List Tk) (h : SeesT s (
     simp only [List.map_cons, List.cons.injEq] at htoks
     obtain ⟨hkv, htl⟩ := htoks
     have hv : v = v0 := congrArg Prod.snd hkv
-    have hk : k = (clsF (isTypeInScopes s.scopes) (k0, v0)).1 := congrArg Prod.fst hkv
+    have hk : k = (clsF ty (k0, v0)).1 := congrArg Prod.fst hkv
     subst hv
     subst hk
     have he' : e = false := by cases e with | false => rfl | true => simp at he
@@ -303,13 +289,13 @@ theorem advance_spec (s : PState) (k v : String) (toks : List Tk) (h : SeesT s (
     have hp := hpul rfl
     simp only [List.map_cons, List.cons_append] at hraw
     let s0 : PState := { s with ticks := s.ticks + 1 }
-    have hlex := lexToken_tok s0 k0 v _ hraw
-    obtain ⟨hty, hst⟩ := hneu.lex k0
-    let tok : PTok := ⟨(clsF (isTypeInScopes s.scopes) (k0, v)).1, v, s.pulled⟩
+    have hlex := lexToken_tok s0 k0 v _ hraw (show isTypeInScopes s0.scopes = ty from hneu.funext)
+    have hst := hneu.lex k0
+    let tok : PTok := ⟨(clsF ty (k0, v)).1, v, s.pulled⟩
     refine ⟨{ s0 with raw := rt'.map (fun t => SEv.tok t.1 t.2) ++ [.eof], pulled := s.pulled + 1,
                        fileRef := s.pulled + 1, lexCalls := s.lexCalls + 1,
                        buf := s.buf.push (some tok), idx := s.idx + 1, scopes := lexScopes k0 s.scopes }, ?_,
-            ⟨⟨[], rt', false, ?_, rfl, ?_, by simp, hst, ?_⟩, ?_, ?_⟩, hty, rfl, bufExt_push s _ _ rfl, by simp, ?_⟩
+            ⟨⟨[], rt', false, ?_, rfl, ?_, by simp, hst, ?_⟩, ?_, ?_⟩, hst.funext, rfl, bufExt_push s _ _ rfl, by simp, ?_⟩
     · have hlt : s0.buf.size < s0.idx + 1 := by show s.buf.size < s.idx + 1; omega
       have hfill : fill 1 1 { s with ticks := s.ticks + 1 } = .ok ()
           { s0 with raw := rt'.map (fun t => SEv.tok t.1 t.2) ++ [.eof], pulled := s.pulled + 1,
@@ -324,8 +310,8 @@ theorem advance_spec (s : PState) (k v : String) (toks : List Tk) (h : SeesT s (
       rfl
     · show (s.buf.push (some tok)).toList.drop (s.idx + 1) = _
       simp [hsz]
-    · show toks = ([] : List PTok).map (fun t => (t.kind, t.val)) ++ rt'.map (clsF (isTypeInScopes (lexScopes k0 s.scopes)))
-      rw [hty, htl]; rfl
+    · show toks = ([] : List PTok).map (fun t => (t.kind, t.val)) ++ rt'.map (clsF ty)
+      rw [htl]; rfl
     · intro _; show s.pulled + 1 = (s.buf.push (some tok)).size; simp; omega
     · show s.idx + 1 ≤ (s.buf.push (some tok)).size
       simp; omega
@@ -334,8 +320,8 @@ theorem advance_spec (s : PState) (k v : String) (toks : List Tk) (h : SeesT s (
       simp [hsz, tok, hp]
 
 /-- `peek` at the end of the input returns `None` (and may record the end marker) -/
-theorem peek_end (s : PState) (h : SeesT s []) :
-    ∃ s', peek s = .ok none s' ∧ SeesT s' [] ∧ TyEq s s' ∧ s'.idx = s.idx ∧
+theorem peek_end (s : PState) (h : SeesT ty s []) :
+    ∃ s', peek s = .ok none s' ∧ SeesT ty s' [] ∧ isTypeInScopes s'.scopes = ty ∧ s'.idx = s.idx ∧
       BufExt s s' ∧ s.buf.size ≤ s'.buf.size := by
   obtain ⟨⟨bt, rt, e, hbuf, hraw, htoks, he, hneu, hpul⟩, hle, hpos⟩ := h
   have hbt : bt = [] := by cases bt with | nil => rfl | cons _ _ => simp at htoks
@@ -352,7 +338,7 @@ theorem peek_end (s : PState) (h : SeesT s []) :
       have := (Array.getElem?_eq_some_iff.mp hget).1
       omega
     refine ⟨{ s with ticks := s.ticks + 1 }, ?_,
-      ⟨⟨[], [], true, by simpa using hbuf, by simpa using hraw, rfl, by simp, hneu, by simp⟩, hle, hpos⟩, rfl, rfl, fun j _ => rfl, Nat.le_refl _⟩
+      ⟨⟨[], [], true, by simpa using hbuf, by simpa using hraw, rfl, by simp, hneu, by simp⟩, hle, hpos⟩, hneu.funext, rfl, fun j _ => rfl, Nat.le_refl _⟩
     simp only [peek, peekK, fill]
     simp [hlt, hget]
   | false =>
@@ -370,7 +356,7 @@ theorem peek_end (s : PState) (h : SeesT s []) :
       simp only [fill, hlt, ↓reduceIte, hlex]
       rfl
     refine ⟨{ s0 with fileRef := s.pulled + 1, lexCalls := s.lexCalls + 1, buf := s.buf.push none }, ?_,
-      ⟨⟨[], [], true, ?_, by simpa using hraw, rfl, by simp, hneu, by simp⟩, ?_, pos_push_none hpos⟩, rfl, rfl, bufExt_push s _ _ rfl, by simp⟩
+      ⟨⟨[], [], true, ?_, by simpa using hraw, rfl, by simp, hneu, by simp⟩, ?_, pos_push_none hpos⟩, hneu.funext, rfl, bufExt_push s _ _ rfl, by simp⟩
     · show peekK 1 s = _
       unfold peekK
       simp only [show ((1 : Nat) == 0) = false from rfl, Bool.false_eq_true, ↓reduceIte]
@@ -385,15 +371,15 @@ theorem peek_end (s : PState) (h : SeesT s []) :
 /-! ## looking further ahead, and going back -/
 
 /-- `_fill(n)` when at least `n` tokens are still to come: buffers them, changes nothing else -/
-theorem fill_spec : ∀ (fuel n : Nat) (s : PState) (toks : List Tk), SeesT s toks → n ≤ toks.length →
+theorem fill_spec : ∀ (fuel n : Nat) (s : PState) (toks : List Tk), SeesT ty s toks → n ≤ toks.length →
     n ≤ fuel + (s.buf.size - s.idx) →
-    ∃ s', fill fuel n s = .ok () s' ∧ SeesT s' toks ∧ TyEq s s' ∧ s'.idx = s.idx ∧
+    ∃ s', fill fuel n s = .ok () s' ∧ SeesT ty s' toks ∧ isTypeInScopes s'.scopes = ty ∧ s'.idx = s.idx ∧
       BufExt s s' ∧ s.buf.size ≤ s'.buf.size ∧ s.idx + n ≤ s'.buf.size ∧ s'.ticks = s.ticks := by
   intro fuel
   induction fuel with
   | zero =>
     intro n s toks h hn hf
-    refine ⟨s, rfl, h, rfl, rfl, fun _ _ => rfl, Nat.le_refl _, ?_, rfl⟩
+    refine ⟨s, rfl, h, h.agrees.funext, rfl, fun _ _ => rfl, Nat.le_refl _, ?_, rfl⟩
     have := h.idx_le; omega
   | succ fuel ih =>
     intro n s toks h hn hf
@@ -416,44 +402,43 @@ theorem fill_spec : ∀ (fuel n : Nat) (s : PState) (toks : List Tk), SeesT s to
         obtain ⟨k, v⟩ := t
         have hp := hpul rfl
         simp only [List.map_cons, List.cons_append] at hraw
-        have hlex := lexToken_tok s k v _ hraw
-        obtain ⟨hty, hst⟩ := hneu.lex k
-        let tok : PTok := ⟨(clsF (isTypeInScopes s.scopes) (k, v)).1, v, s.pulled⟩
+        have hlex := lexToken_tok s k v _ hraw hneu.funext
+        have hst := hneu.lex k
+        let tok : PTok := ⟨(clsF ty (k, v)).1, v, s.pulled⟩
         let s1 : PState := { s with raw := rt'.map (fun t => SEv.tok t.1 t.2) ++ [.eof], pulled := s.pulled + 1,
                                     fileRef := s.pulled + 1, lexCalls := s.lexCalls + 1, buf := s.buf.push (some tok),
                                     scopes := lexScopes k s.scopes }
-        have hs1 : SeesT s1 toks := by
+        have hs1 : SeesT ty s1 toks := by
           refine ⟨⟨bt ++ [tok], rt', false, ?_, rfl, ?_, by simp, hst, ?_⟩, ?_, ?_⟩
           · show (s.buf.push (some tok)).toList.drop s.idx = _
             simp only [Array.toList_push, List.map_append, List.map_cons, List.map_nil]
             rw [List.drop_append_of_le_length (by simp; exact hle), hbuf]
             simp
-          · show toks = (bt ++ [tok]).map (fun t => (t.kind, t.val)) ++ rt'.map (clsF (isTypeInScopes (lexScopes k s.scopes)))
-            rw [htoks, hty]; simp [tok, clsF]
+          · show toks = (bt ++ [tok]).map (fun t => (t.kind, t.val)) ++ rt'.map (clsF ty)
+            rw [htoks]; simp [tok, clsF]
           · intro _; show s.pulled + 1 = (s.buf.push (some tok)).size; simp; omega
           · show s.idx ≤ (s.buf.push (some tok)).size; simp; omega
           · exact pos_push_some hpos (by show s.pulled = s.buf.size; exact hp)
-        have hty1 : TyEq s s1 := hty
         obtain ⟨s', hf', hs', hsc, hidx, hext, hsz, hnb, htk⟩ := ih n s1 toks hs1 hn (by
           show n ≤ fuel + ((s.buf.push (some tok)).size - s.idx); simp; omega)
-        refine ⟨s', ?_, hs', hty1.trans hsc, hidx, ?_, ?_, hnb, htk⟩
+        refine ⟨s', ?_, hs', hsc, hidx, ?_, ?_, hnb, htk⟩
         · simp only [fill, hlt, ↓reduceIte, hlex]
           exact hf'
         · exact BufExt.trans (bufExt_push s _ s1 rfl) hext (by show s.buf.size ≤ (s.buf.push (some tok)).size; simp)
         · have : s.buf.size ≤ s1.buf.size := by show s.buf.size ≤ (s.buf.push (some tok)).size; simp
           omega
-    · refine ⟨s, by simp [fill, hlt], h, rfl, rfl, fun _ _ => rfl, Nat.le_refl _, by omega, rfl⟩
+    · refine ⟨s, by simp [fill, hlt], h, h.agrees.funext, rfl, fun _ _ => rfl, Nat.le_refl _, by omega, rfl⟩
 
 
 /-- `peek(k)` (k >= 1) when at least `k` tokens are still to come -/
-theorem peekK_spec (kk : Nat) (s : PState) (toks : List Tk) (t : Tk) (h : SeesT s toks)
+theorem peekK_spec (kk : Nat) (s : PState) (toks : List Tk) (t : Tk) (h : SeesT ty s toks)
     (ht : toks[kk]? = some t) :
-    ∃ s', peekK (kk + 1) s = .ok (some ⟨t.1, t.2, s.idx + kk⟩) s' ∧ SeesT s' toks ∧ TyEq s s' ∧
+    ∃ s', peekK (kk + 1) s = .ok (some ⟨t.1, t.2, s.idx + kk⟩) s' ∧ SeesT ty s' toks ∧ isTypeInScopes s'.scopes = ty ∧
       s'.idx = s.idx ∧ BufExt s s' ∧ s.buf.size ≤ s'.buf.size := by
   have hlen : kk + 1 ≤ toks.length := by
     have := (List.getElem?_eq_some_iff.mp ht).1; omega
   let s0 : PState := { s with ticks := s.ticks + 1 }
-  have hs0 : SeesT s0 toks := ⟨h.buffered, h.idx_le, h.pos⟩
+  have hs0 : SeesT ty s0 toks := ⟨h.buffered, h.idx_le, h.pos⟩
   obtain ⟨s', hf, hs', hsc, hidx, hext, hsz, hnb, _⟩ := fill_spec (kk + 1) (kk + 1) s0 toks hs0 hlen (by omega)
   refine ⟨s', ?_, hs', hsc, hidx, hext, hsz⟩
   -- the entry at idx + kk is the kk-th upcoming token
@@ -493,14 +478,14 @@ theorem peekK_spec (kk : Nat) (s : PState) (toks : List Tk) (t : Tk) (h : SeesT 
     rw [← htk, hti, hi]
 
 /-- going back over one token that is still in the buffer (`_reset(mark)` right after an `_advance`) -/
-theorem reset_one (s : PState) (toks : List Tk) (m : Nat) (t : PTok) (h : SeesT s toks) (hi : s.idx = m + 1)
+theorem reset_one (s : PState) (toks : List Tk) (m : Nat) (t : PTok) (h : SeesT ty s toks) (hi : s.idx = m + 1)
     (hb : s.buf[m]? = some (some t)) :
-    ∃ s', reset m s = .ok () s' ∧ SeesT s' ((t.kind, t.val) :: toks) ∧ TyEq s s' ∧ s'.idx = m ∧
+    ∃ s', reset m s = .ok () s' ∧ SeesT ty s' ((t.kind, t.val) :: toks) ∧ isTypeInScopes s'.scopes = ty ∧ s'.idx = m ∧
       BufExt s s' ∧ s.buf.size ≤ s'.buf.size := by
   obtain ⟨⟨bt, rt, e, hbuf, hraw, htoks, he, hneu, hpul⟩, hle, hpos⟩ := h
   refine ⟨{ s with idx := m, ticks := s.ticks + 1 }, rfl,
     ⟨⟨t :: bt, rt, e, ?_, hraw, by simp [htoks], he, hneu, hpul⟩, by show m ≤ s.buf.size; omega, hpos⟩,
-    rfl, rfl, fun _ _ => rfl, Nat.le_refl _⟩
+    hneu.funext, rfl, fun _ _ => rfl, Nat.le_refl _⟩
   show s.buf.toList.drop m = _
   have hlt : m < s.buf.toList.length := by
     have := (Array.getElem?_eq_some_iff.mp hb).1; simpa using this
@@ -543,9 +528,9 @@ theorem mem_scopeSet {sc : Scope} {n : String} {b : Bool} {e : String × Bool} (
 
 /-- `_add_identifier(n)` for a name that is not a type name keeps the static environment, hence
 the token view -/
-theorem addIdentifier_spec (s : PState) (toks : List Tk) (n : String) (c : Option Coord) (h : SeesT s toks)
-    (hn : isTypeInScopes s.scopes n = false) :
-    ∃ s', addIdentifier n c s = .ok () s' ∧ SeesT s' toks ∧ TyEq s s' ∧ s'.idx = s.idx ∧ s'.buf = s.buf := by
+theorem addIdentifier_spec (s : PState) (toks : List Tk) (n : String) (c : Option Coord) (h : SeesT ty s toks)
+    (hn : ty n = false) :
+    ∃ s', addIdentifier n c s = .ok () s' ∧ SeesT ty s' toks ∧ s'.idx = s.idx ∧ s'.buf = s.buf := by
   obtain ⟨⟨bt, rt, e, hbuf, hraw, htoks, he, hneu, hpul⟩, hle, hpos⟩ := h
   obtain ⟨hall, init, last, heq, hlast⟩ := hneu
   cases hsc : s.scopes with
@@ -558,8 +543,8 @@ theorem addIdentifier_spec (s : PState) (toks : List Tk) (n : String) (c : Optio
         have := hall sc (by rw [hsc]; simp) (n, b) (scopeLookup_mem hl)
         simp only at this
         rw [this, hn]; rfl
-    -- the new stack agrees with the old environment
-    have hag : Agrees (isTypeInScopes s.scopes) (scopeSet sc n false :: rest) := by
+    -- the new stack agrees with the same environment
+    have hag : Agrees ty (scopeSet sc n false :: rest) := by
       refine ⟨?_, ?_⟩
       · intro sc' hsc' e' he'
         simp only [List.mem_cons] at hsc'
@@ -580,14 +565,9 @@ theorem addIdentifier_spec (s : PState) (toks : List Tk) (n : String) (c : Optio
         | cons a init' =>
           simp only [List.cons_append, List.cons.injEq] at heq
           exact ⟨scopeSet sc n false :: init', last, by rw [heq.2]; rfl, hlast⟩
-    have hty : isTypeInScopes (scopeSet sc n false :: rest) = isTypeInScopes s.scopes := hag.funext
-    refine ⟨{ s with scopes := scopeSet sc n false :: rest }, ?_, ⟨⟨bt, rt, e, hbuf, hraw, ?_, he, ?_, hpul⟩, hle, hpos⟩, hty, rfl, rfl⟩
-    · unfold addIdentifier
-      rw [hsc]
-      simp [hlk]
-    · show toks = _ ++ rt.map (clsF (isTypeInScopes (scopeSet sc n false :: rest)))
-      rw [hty]; exact htoks
-    · show Agrees (isTypeInScopes (scopeSet sc n false :: rest)) (scopeSet sc n false :: rest)
-      rw [hty]; exact hag
+    refine ⟨{ s with scopes := scopeSet sc n false :: rest }, ?_, ⟨⟨bt, rt, e, hbuf, hraw, htoks, he, hag, hpul⟩, hle, hpos⟩, rfl, rfl⟩
+    unfold addIdentifier
+    rw [hsc]
+    simp [hlk]
 
 end PycModel.View
